@@ -151,7 +151,7 @@ def make_case(rng, allow_method_change=False, faults_ok=False, geoms=GEOMS, np_c
             if rng.random() < 0.5:
                 f = {"buggify": {"mode": "content", "key": key,
                                  "arm": {"newton": 1.0,
-                                         "integrate": rng.choice((1e-3, 1e-2))}}}
+                                         "integrate": rng.choice((3e-3, 1e-2))}}}
             else:
                 f = {"clock": {"key": key, "slowness": 1.0,
                                "slow_prob": rng.choice((1e-3, 1e-2))}}
